@@ -87,6 +87,11 @@ def reply_variants(rnd, tier):
     out.append(('ok-http10-version', dict(version='HTTP/1.0'), 'unjudged'))
     out.append(('ok-ext', dict(extra=[('Sec-WebSocket-Extensions', 'permessage-deflate; server_max_window_bits=12')]), 'ready'))
     out.append(('ok-pad-16384', dict(pad_to=16384), 'ready'))
+    # a line without a colon among the headers: whatever a parser makes of it, the deciding headers are all there
+    out.append(('ok-colonless-line-first', dict(colonless='first'), 'unjudged-ready-or-rejected'))
+    out.append(('ok-colonless-line-last', dict(colonless='last'), 'unjudged-ready-or-rejected'))
+    out.append(('status-404-colonless-line', dict(status=404, reason='NF', colonless='last'), 'rejected'))
+    out.append(('wrong-accept-colonless-line', dict(accept='other_key', colonless='first'), 'rejected'))
     # header COUNT instead of header size: hundreds of small headers around the deciding ones
     out.append(('ok-150-headers-first', dict(many_front=150), 'ready'))
     out.append(('ok-150-headers-last', dict(many_back=150), 'ready'))
@@ -336,7 +341,15 @@ def run_reply(case, acc):
     if exp == 'unjudged':
         acc.count2('unjudged_outcome', case['fam'] + ('=ready' if 'ready' in run.names else '=not-ready'))
         return
-    key = judge_reply(run, w, exp, spec, True)
+    if exp == 'unjudged-ready-or-rejected':
+        # which of the two is not judged; that it is one of them (an event, not an error path) is
+        key = judge_reply(run, w, 'ready', spec, True)
+        if key is not None:
+            key = judge_reply(run, w, 'rejected', spec, True)
+            if key is not None:
+                key = 'neither-ready-nor-rejected'
+    else:
+        key = judge_reply(run, w, exp, spec, True)
     if key:
         fam = case['fam']
         if fam.startswith('wrong-accept:') and fam.split(':')[1] in ('lower', 'upper', 'swap'):
